@@ -397,7 +397,7 @@ def isvector(v, dim=None):
 
     :seealso: :func:`getvector`, :func:`assertvector`
     """
-    if isinstance(v, (list, tuple)) and (dim is None or len(v) == dim) \
+    if isinstance(v, (list, tuple)) and (len(v) > 0 if dim is None else len(v) == dim) \
        and all(map(lambda x: isinstance(x, _scalartypes), v)):
         return True  # list or tuple
 
